@@ -35,14 +35,15 @@ fn trait_cases() -> Vec<TraitCase> {
 
 fn header_ok(r: &mut Report, input: &str, im: &syn::ItemImpl) {
     // entrait's fixed requirement on the application type: Sync + 'static (never Send: the receiver is &self)
-    match im.generics.params.first() {
+    // (lifetime parameters of the trait come first - rustc demands that order -, then entrait's own parameter)
+    match im.generics.params.iter().find(|p| !matches!(p, syn::GenericParam::Lifetime(_))) {
         Some(syn::GenericParam::Type(tp)) if tp.ident == "EntraitT" => {
             let got: Vec<String> = tp.bounds.iter().map(|b| tt_string(b)).collect();
             if got != vec![":: core :: marker :: Sync".to_string(), "'static".to_string()] {
                 r.fail("fixed-bounds", input, format!("EntraitT: {} but the fixed requirement is ::core::marker::Sync + 'static", got.join(" + ")));
             }
         }
-        _ => r.fail("impl-generics", input, "first impl generic is not EntraitT".into()),
+        _ => r.fail("impl-generics", input, "the first type parameter of the impl is not EntraitT".into()),
     }
     if squash(&tt_string(&im.self_ty)) != "::entrait::Impl<EntraitT>" {
         r.fail("self-type", input, format!("implemented for `{}`", tt_string(&im.self_ty)));
@@ -212,8 +213,13 @@ fn c07(_ctx: &Ctx, r: &mut Report) {
                     // pub trait DelegateTr<T> { type Target: TrImpl<T>; }
                     match find_trait(&file.items, "DelegateTr") {
                         Some(d) => {
+                            // `trait DelegateTr<P> { type Target: TrImpl<P>; }` for one type parameter P (its name is entrait's business)
                             let s = squash(&tt_string(d));
-                            if !s.contains("DelegateTr<T>{typeTarget:TrImpl<T>;}") {
+                            let p = match d.generics.params.first() {
+                                Some(syn::GenericParam::Type(tp)) if d.generics.params.len() == 1 && tp.bounds.is_empty() => tp.ident.to_string(),
+                                _ => String::new(),
+                            };
+                            if p.is_empty() || !s.contains(&format!("DelegateTr<{}>{{typeTarget:TrImpl<{}>;}}", p, p)) {
                                 r.fail("selector-trait", &input, format!("selector trait is `{}`", tt_string(d)));
                             }
                         }
